@@ -112,7 +112,9 @@ def run(pid, tier, seed):
                 "once under AddressSanitizer/UBSan (a report is a terminal event the spec rejects)." % (4 if q else 5),
         "samples": samples, "exhaustive": True, "exhaustive_scope": "binding A alphabet/depth; scaled arena model",
         "arena_directed_sequences": adv["executions"], "recorded_events": lines,
-        "hash_collisions": "not constructible for a 64-bit std::hash by search; bucket chains longer than one are not exercised",
+        "hash_collisions": "a family of six 16-byte words with one std::hash code (constructed by inverting the block mixing of libstdc++'s "
+                           "murmur; the recorder checks at run time that the codes coincide) is interned in every order of revisiting, "
+                           "so bucket chains longer than one are exercised",
     }
     return {"coverage": coverage, "violations": violations,
             "assumptions": ["reserved-word list of the spec is a lower bound", "ASan observes invalidation of earlier strings"]}
